@@ -126,6 +126,9 @@ def handleProv (kv : List (String × String)) (impl : String) : String × String
     let deliv := (List.range n).filterMap fun k => deliver ring k
     "ok ring=" ++ String.intercalate "|" (deliv.map fun a => esc (String.ofList a.name)) ++
       " sc=" ++ String.intercalate ";" (dedup (deliv.map descr))
+  -- negative weights are outside the property's domain and a repair that refuses them is pending elsewhere
+  -- (fixes/C13-scenario-negative-weight.diff): nothing is predicted for them
+  let mobs := if scs.any (fun sc => sc.weight < 0) then "-" else mobs
   let verdict :=
     match domain reqNames scs with
     | some "leading-sleep" =>
@@ -157,6 +160,7 @@ structure CReq where
   uri : List String
   body : List String
   post : List String
+  xh : List (String × String) := []   -- extra headers: name ↦ template part
 deriving Repr
 
 def strLe (a b : String) : Bool := a < b || a == b
@@ -169,9 +173,17 @@ def parseReqs (s : String) : List CReq :=
       match p.splitOn "=" with
       | k :: v :: rest => some (k, String.intercalate "=" (v :: rest))
       | _ => none
+    let xh := (splitNE (g 6) "|").filterMap fun p =>
+      match p.splitOn "=" with
+      | k :: v :: rest => some (k, String.intercalate "=" (v :: rest))
+      | _ => none
     { name := g 0, method := if g 1 == "P" then "POST" else "GET",
       pre := pre.mergeSort (fun a b => strLe a.1 b.1),
-      uri := splitNE (g 3) "|", body := splitNE (g 4) "|", post := splitNE (g 5) "|" }
+      uri := splitNE (g 3) "|", body := splitNE (g 4) "|", post := splitNE (g 5) "|", xh := xh }
+
+/-- a header literally named `url` or `body`: the text templater's cache key `<scenario>_<step>_<key>` is also used
+for the URI (`url`) and the body (`body`) — finding `tmpl-cache` -/
+def collides (r : CReq) : Bool := r.xh.any fun (n, _) => n == "url" || n == "body"
 
 def prePath (code : String) : String :=
   if code == "n" then "source.users[next].id"
@@ -229,18 +241,20 @@ def renderReq (reqs : List CReq) (rows : Nat) (d : ReqDef) (t : List (String × 
   match reqs.find? (·.name == d.name) with
   | none => none
   | some r =>
-    match mapMOpt (renderPart rows t) r.uri, mapMOpt (renderPart rows t) r.body with
-    | some us, some bs =>
+    match mapMOpt (renderPart rows t) r.uri, mapMOpt (renderPart rows t) r.body,
+          mapMOpt (fun (x : String × String) => (renderPart rows t x.2).map fun v => "H." ++ x.1 ++ "=" ++ escv v) r.xh with
+    | some us, some bs, some xs =>
       let path := String.join (("/" ++ r.name) :: us.map ("/" ++ ·))
       let hdrs := r.pre.map fun (v, code) =>
         let val := match lookupPath t ["request", r.name, "preprocessor", v] with
           | some x => valText x | none => "<no value>"
         if code == "n" then "N." ++ v ++ "=" ++ escv val
         else "V." ++ v ++ "=" ++ escv (if code == "r" then "ok" else val)
+      let hdrs := hdrs ++ xs
       let hs := if hdrs.isEmpty then "-" else String.intercalate "," (hdrs.mergeSort strLe)
       let body := String.intercalate "," bs
       some ("R~" ++ r.method ++ "~" ++ escv path ++ "~" ++ hs ++ "~" ++ (if body.isEmpty then "-" else escv body))
-    | _, _ => none
+    | _, _, _ => none
 
 structure Resp where
   status : Int
@@ -419,6 +433,9 @@ def handleGun (kv : List (String × String)) (impl : String) : String × String 
     let visible (evs : List (List String)) : List Nat := evs.flatten.flatMap drawsOfEvent
     let allRows := (outs'.flatMap fun (evs, _, _) => visible evs).mergeSort (· ≤ ·)
     let mobs := "ok " ++ String.intercalate " " parts ++ " rows=" ++ natsStr allRows
+    -- requests with a header named url / body: what is sent depends on whether the templater's cache-key repair
+    -- (fixes/C15-templater-cache-key.diff) has landed; the model predicts nothing, the Spec below still judges
+    let mobs := if reqs.any collides then "-" else mobs
     -- Spec on the implementation's observation
     let verdict : String :=
       if !impl.startsWith "ok " then s!"fail:crash:{impl.take 80}" else
@@ -478,11 +495,13 @@ def handleGun (kv : List (String × String)) (impl : String) : String × String 
                 if mf == f then none
                 else if mf == "1" then some s!"i{i} {shot}: step {unesc it} was reported successful but it failed (see the target script and its extractors/assertions)"
                 else some s!"i{i} {shot}: step {unesc mt} was reported failed but nothing in it failed")
+          -- a deviation from the model in a case with a header named url / body is the templater's cache-key defect
+          let fkey (k : String) : String := if reqs.any collides then "fail:tmpl-cache:" ++ k ++ " " else "fail:" ++ k ++ ":"
           match stopv with
-          | some d => "fail:stop:" ++ (d.take 300).toString
+          | some d => fkey "stop" ++ (d.take 300).toString
           | none =>
           match vflow with
-          | some d => "fail:var-flow:" ++ (d.take 300).toString
+          | some d => fkey "var-flow" ++ (d.take 300).toString
           | none =>
           let traces : List (List ((Nat × String) × Nat)) := (fed.filterMap id).map fun (_, _, vis) => vis
           let full : List ((Nat × String) × Nat) := (fed.filterMap id).flatMap fun (_, it, _) => it.trace
@@ -497,7 +516,7 @@ def handleGun (kv : List (String × String)) (impl : String) : String × String 
               (closed && all != (List.range all.length).map (· % rows)) ||
               (all.length ≤ rows && perInst.any fun l => !(l.zip (l.drop 1)).all fun (a, b) => a < b))
           match bad with
-          | some c => s!"fail:round-robin:{c}"
+          | some c => fkey "round-robin" ++ c
           | none => "ok"
     (mobs, verdict)
 
